@@ -33,6 +33,32 @@ from .values import (
 )
 
 
+class SuperV:
+    """super() inside a method of `cls`: attribute lookup continues after `cls` in the MRO of the object"""
+
+    def __init__(self, selfv, cls):
+        self.selfv, self.cls = selfv, cls
+
+    def getattr(self, name, ex, st, node):
+        from .exec import BoundMethod, Builtin, FuncVal
+        from .objects import dataclass_init
+
+        ocls = st.heap[self.selfv.oid].cls
+        mro = ocls.mro()
+        rest = mro[mro.index(self.cls) + 1:]
+        for c in rest:
+            if name in c.methods:
+                yield st, BoundMethod(self.selfv, FuncVal(c.module, c.methods[name], c))
+                return
+            if name == "__init__" and c.is_dataclass:
+                def init(ex, st_, args, kwargs, node_, c=c):
+                    for s1, _ in dataclass_init(ex, ocls, self.selfv, args, kwargs, st_, node_, fields_of=c):
+                        yield s1, None
+                yield st, Builtin("dataclass.__init__", init)
+                return
+        raise Unsupported(f"super().{name}")
+
+
 class VarsView:
     """vars(obj) / obj.__dict__ : an alias of the object's field map (not a copy)"""
 
@@ -303,6 +329,14 @@ def make_builtins(ex):
                 return
             raise
         yield from outs
+
+    @reg("super")
+    def _super(ex, st, args, kwargs, node):
+        fr = st.frames[-1]
+        cur, selfv = fr.get("__cls__"), fr.get("self")
+        if cur is None or selfv is None or args:
+            raise Unsupported("super() outside a method")
+        yield st, SuperV(selfv, cur)
 
     @reg("vars")
     def _vars(ex, st, args, kwargs, node):
